@@ -8,6 +8,7 @@ registered class stubs).  Emits the Gallina case term; all comparison happens in
 import ast
 import collections
 import collections.abc
+import functools
 import importlib
 import json
 import sys
@@ -228,7 +229,15 @@ def main():
 
         out = []
         for key, fn in funcs:
-            for a in fn.args.posonlyargs + fn.args.args + fn.args.kwonlyargs:
+            # a decorator is a name the stub uses too: one that the stub's namespace does not provide is reported as a
+            # slot of its own, which no expected annotation matches
+            for dec in fn.decorator_list:
+                src = ast.get_source_segment(text, dec)
+                ok, _ = ev(src)
+                if not ok:
+                    out.append((key, "@" + src, src, None))
+            extra = [x for x in (fn.args.vararg, fn.args.kwarg) if x is not None]
+            for a in fn.args.posonlyargs + fn.args.args + fn.args.kwonlyargs + extra:
                 if a.annotation is not None:
                     src = ast.get_source_segment(text, a.annotation)
                     ok, obj = ev(src)
@@ -255,6 +264,8 @@ def main():
             func = mod
             for part in fn["key"].split("."):
                 func = getattr(func, part)
+            if isinstance(func, functools.cached_property):
+                func = func.func              # what the tracer would hand over: the function under the descriptor
             assert func.__module__ == own, (func.__module__, own)
             args = {n: build(t) for n, t in fn["args"]}
             ret = build(fn["ret"]) if fn["ret"] is not None else None
